@@ -3,7 +3,7 @@ from ..paths import PathEnumerator
 from ..guards import fv
 from ..terms import TermBuilder, fmt, mk, const, subterms
 from ..guards import atomic_facts
-from .common import SELF, self_field, loop_exits_only_on_exhaustion
+from .common import SELF, self_field, loop_exits_only_on_exhaustion, all_writes
 
 EXPLANATION = (
     "R01-bloom-same-positions: BloomFilter::insert sets and ::query tests self.bs at the unmodified items of the same stream "
@@ -53,6 +53,18 @@ def run(ctx):
         # the put is executed on every iteration: it dominates every back edge source
         if oki:
             oki = all(ins.dominates(pi[0][0], b) for b, h in ins.back_edges())
+        if not pi and not heads:
+            # iterator form: iter_for(..).fold(.., |acc, pos| acc & bs.put(pos)) / for_each(|pos| bs.put(pos)): the closure runs for
+            # EVERY item (fold and for_each do not short-circuit; all/any/find would stop at the first false/true)
+            ws = [w for w in all_writes(ctx, ins) if w["root"] == SELF and w["path"][:1] == ("bs",) and w["how"] != "borrow"]
+            oki = len(ws) == 1 and ws[0].get("name") == "put" and ws[0].get("hof") in ("fold", "for_each") and len(ws[0]["args"]) == 2 and ws[0]["args"][1] == S(ins)
+            pi = [(w["bb"], w["args"][1]) for w in ws if len(w.get("args", [])) == 2]
+            if oki:
+                # ... and the closure itself puts on each of its paths
+                cfn = prog.fn(ws[0]["closure"])
+                ctx.analysed_fns.add(cfn.key)
+                pc = PathEnumerator(cfn, prog, ctx.summ)
+                oki = all(any(e["kind"] == "call" and e["name"] == "put" for e in p.events) for p in pc.paths() if p.exit_kind == "return")
         ctx.check(oki, "R01-bloom-same-positions", ins.key, ins, "insert sets bs[pos] for every pos of iter_for(builder, obj)",
                   "insert does not set exactly the positions of iter_for(self.builder, obj) (positions: %s)" % [fmt(p[1]) for p in pi])
         okq = len(pq) == 1 and pq[0][1] == S(qry)
